@@ -1,5 +1,5 @@
 (* Driver entry points for C03 (the scan loop of runner.go over recorded finder / matcher tables). *)
-From Verif Require Import Base.Prelude Base.Wire Model.Scan.
+From Verif Require Import Base.Prelude Base.Wire Model.Scan Model.Finder.
 
 (* tables are indexed by position 0..n; outside the table the components answer as a position that
    is never legitimately reached: finder gives up where it stands, matcher fails where it stands *)
@@ -67,8 +67,140 @@ Definition run_ffc_anchor (args : list Z) : list Z :=
   | _ => bad_case
   end.
 
+(* ---- 304 / 305: the optimized candidate finders (Model/Finder.v) ----------------------------- *)
+Definition d03_opt {A} (d : dec A) : dec (option A) :=
+  dlet has <- d_bool ; if has then (dlet a <- d ; d_ret (Some a)) else d_ret None.
+
+Definition d03_fdset : dec fdset :=
+  dlet st <- d03_opt d_z ; dlet chars <- d_zlist ; dlet neg <- d_bool ;
+  dlet rg <- d03_opt (d_pair d_z d_z) ; dlet dist <- d_z ;
+  d_ret {| fs_set := st; fs_chars := chars; fs_negated := neg; fs_range := rg; fs_distance := dist |}.
+
+Definition d03_lal : dec fdlal :=
+  dlet s <- d_zlist ; dlet ic <- d_bool ; dlet ch <- d_z ; dlet chars <- d_zlist ; dlet ls <- d03_opt d_z ;
+  d_ret {| lal_string := s; lal_string_ic := ic; lal_char := ch; lal_chars := chars; lal_loop_set := ls |}.
+
+Definition d03_alt : dec fdalt :=
+  dlet lit <- d_zlist ; dlet st <- d03_opt d_z ; dlet lw <- d03_opt d_z ; dlet tw <- d03_opt d_z ;
+  dlet mn <- d_z ; dlet mx <- d_z ; dlet rb <- d_bool ; dlet ra <- d_bool ;
+  d_ret {| la_literal := lit; la_set := st; la_lead_ws := lw; la_trail_ws := tw; la_min := mn; la_max := mx;
+           la_req_before := rb; la_req_after := ra |}.
+
+Definition d03_chain : dec fdchain :=
+  dlet ls <- d03_opt d_z ; dlet lms <- d_list (d_list d03_alt) ;
+  d_ret {| lc_loop_set := ls; lc_landmarks := lms |}.
+
+Definition d03_fdopts : dec fdopts :=
+  dlet mode <- d_z ; dlet mr <- d_z ; dlet prefix <- d_zlist ; dlet prefixes <- d_list d_zlist ;
+  dlet firsts <- d_zlist ; dlet c <- d_z ; dlet s <- d_zlist ; dlet dist <- d_z ;
+  dlet sets <- d_list d03_fdset ; dlet lal <- d03_opt d03_lal ; dlet chain <- d03_opt d03_chain ;
+  d_ret {| fo_mode := mode; fo_minreq := mr; fo_prefix := prefix; fo_prefixes := prefixes;
+           fo_first_runes := firsts; fo_fdl_c := c; fo_fdl_s := s; fo_fdl_distance := dist;
+           fo_sets := sets; fo_lal := lal; fo_chain := chain |}.
+
+Definition d03_fc : dec fdfc :=
+  dlet sg <- d03_opt d_z ; dlet st <- d_z ; d_ret {| fc_singleton := sg; fc_set := st |}.
+
+(* the oracles travel with the case: ToLower as an association list over the runes of the text
+   (identity elsewhere), set membership as one list of member runes per set id *)
+Record fd_case := {
+  fdc_text : list Z; fdc_lower : list (Z * Z); fdc_sets : list (list Z);
+  fdc_rtl : bool; fdc_anchors : Z; fdc_ts : Z;
+  fdc_bm : option (list Z * list Z);            (* BmPrefix.IsMatch / BmPrefix.Scan per position 0..n *)
+  fdc_opts : option fdopts; fdc_fc : option fdfc }.
+
+Definition d03_case : dec fd_case :=
+  dlet text <- d_zlist ; dlet low <- d_list (d_pair d_z d_z) ; dlet sets <- d_list d_zlist ;
+  dlet rtl <- d_bool ; dlet anchors <- d_z ; dlet ts <- d_z ;
+  dlet bm <- d03_opt (d_pair d_zlist d_zlist) ; dlet o <- d03_opt d03_fdopts ; dlet fc <- d03_opt d03_fc ;
+  d_ret {| fdc_text := text; fdc_lower := low; fdc_sets := sets; fdc_rtl := rtl; fdc_anchors := anchors;
+           fdc_ts := ts; fdc_bm := bm; fdc_opts := o; fdc_fc := fc |}.
+
+Definition fdc_set_in (c : fd_case) (id x : Z) : bool :=
+  match znth (fdc_sets c) id with Some l => zmem x l | None => false end.
+Definition fdc_lower_f (c : fd_case) (x : Z) : Z := zassoc x (fdc_lower c) x.
+
+Fixpoint fd_positions (k : nat) (p : Z) : list Z :=
+  match k with O => [] | S k' => p :: fd_positions k' (p + 1) end.
+
+(* 304: VerifFindFirstChar at every position 0..n: per position [0; cut; found; newpos] or [2;0;0;0] (fault) *)
+Definition run_fd_default (args : list Z) : list Z :=
+  match d03_case args with
+  | Some (c, []) =>
+      let bm := match fdc_bm c with
+                | Some (t, _) => Some (fun q => match znth t q with Some b => negb (b =? 0) | None => false end)
+                | None => None end in
+      let bms := match fdc_bm c with
+                 | Some (_, t) => Some (fun q => match znth t q with Some x => x | None => -1 end)
+                 | None => None end in
+      flat_map (fun p =>
+        match fd_verif_find_first_char (fdc_text c) (fdc_set_in c) (fdc_lower_f c) (fdc_rtl c)
+                (fdc_anchors c) (fdc_ts c) bm bms (fdc_opts c) (fdc_fc c) p with
+        | Ok (cut, found, q) => [0] ++ e_bool cut ++ e_bool found ++ [q]
+        | Fuel => [3; 0; 0; 0]
+        | _ => [2; 0; 0; 0]
+        end) (fd_positions (S (length (fdc_text c))) 0)
+  | _ => bad_case
+  end.
+
+(* 305: VerifFindFirstCharOptimized at every position: [0; should; handled; found; newpos] or [2;0;0;0;0] *)
+Definition run_fd_optimized (args : list Z) : list Z :=
+  match d03_case args with
+  | Some (c, []) =>
+      match fdc_opts c with
+      | Some o =>
+          flat_map (fun p =>
+            match fd_find_first_char_optimized (fdc_text c) (fdc_set_in c) (fdc_lower_f c) o p with
+            | Ok (handled, found, q) => [0] ++ e_bool (fd_should_use_optimized o) ++ e_bool handled ++ e_bool found ++ [q]
+            | Fuel => [3; 0; 0; 0; 0]
+            | _ => [2; 0; 0; 0; 0]
+            end) (fd_positions (S (length (fdc_text c))) 0)
+      | None => bad_case
+      end
+  | _ => bad_case
+  end.
+
+(* 306: leadingPrefixFirstRunes (optimizations.go:593) *)
+Definition run_fd_first_runes (args : list Z) : list Z :=
+  match d_list d_zlist args with
+  | Some (prefixes, []) => e_zlist (fd_leading_prefix_first_runes prefixes)
+  | _ => bad_case
+  end.
+
+(* 307: helpers/indexof.go called directly.  args: function number, ToLower table, in, find, a, b
+   -> [0; result] or [2; 0] (fault); booleans as 0/1 *)
+Definition run_fd_helper (args : list Z) : list Z :=
+  match (dlet fn <- d_z ; dlet low <- d_list (d_pair d_z d_z) ; dlet l <- d_zlist ; dlet find <- d_zlist ;
+         dlet a <- d_z ; dlet b <- d_z ; d_ret (fn, low, l, find, a, b)) args with
+  | Some ((fn, low, l, find, a, b), []) =>
+      let lower := fun x => zassoc x low x in
+      let ok (z : Z) := [0; z] in
+      let okr (r : res Z) := match r with Ok z => [0; z] | _ => [2; 0] end in
+      let okb (r : res bool) := match r with Ok z => [0; if z then 1 else 0] | _ => [2; 0] end in
+      if fn =? 1 then ok (fd_index_of_any l find)
+      else if fn =? 2 then ok (fd_index_of_any1 l a)
+      else if fn =? 3 then ok (fd_index_of_any2 l a b)
+      else if fn =? 4 then ok (fd_index_of_any3 l a b (nth 0 find 0))
+      else if fn =? 5 then ok (fd_index_of_any_in_range l a b)
+      else if fn =? 6 then ok (fd_index_of_any_except l find)
+      else if fn =? 7 then ok (fd_index_of_any_except_in_range l a b)
+      else if fn =? 8 then okr (fd_index_of l find)
+      else if fn =? 9 then okr (fd_index_of_ic lower l find)
+      else if fn =? 10 then okr (fd_index_of_ic_ascii l find)
+      else if fn =? 11 then okb (fd_starts_with l find)
+      else if fn =? 12 then okb (Ok (fd_starts_with_ic lower l find))
+      else if fn =? 13 then ok (fd_index_of_any_runes l find)
+      else if fn =? 14 then ok (if fd_is_ascii_runes find then 1 else 0)
+      else bad_case
+  | _ => bad_case
+  end.
+
 Definition run03 (leg : Z) (args : list Z) : list Z :=
   if leg =? 301 then run_scan args
   else if leg =? 302 then run_scan_hyps args
   else if leg =? 303 then run_ffc_anchor args
+  else if leg =? 304 then run_fd_default args
+  else if leg =? 305 then run_fd_optimized args
+  else if leg =? 306 then run_fd_first_runes args
+  else if leg =? 307 then run_fd_helper args
   else bad_case.
